@@ -1100,22 +1100,35 @@ func TestVerifC10PredicateSelfTest(t *testing.T) {
 		t.Fatalf("predicate rejects the default configuration: %v", bad)
 	}
 	breaks := map[string]func(c *Conf){
-		"readTimeout":    func(c *Conf) { c.ReadTimeout = 0 },
-		"writeTimeout":   func(c *Conf) { c.WriteTimeout = -1 },
-		"queue":          func(c *Conf) { c.WriteQueueSize = 1000 },
-		"queue0":         func(c *Conf) { c.WriteQueueSize = 0 },
-		"udp":            func(c *Conf) { c.UDPMaxPayloadSize = 1473 },
-		"path":           func(c *Conf) { c.Paths["cam"].RecordPath = "./rec/%Y-%m-%d_%H-%M-%S-%f" },
-		"timestamp":      func(c *Conf) { c.Paths["cam"].RecordPath = "./rec/%path/%Y-%m-%d_%H-%M-%f" },
-		"micros":         func(c *Conf) { c.Playback = true; c.Paths["cam"].RecordPath = "./rec/%path/%s" },
-		"deleteAfter":    func(c *Conf) { c.Paths["cam"].RecordDeleteAfter = 1 },
-		"segment":        func(c *Conf) { c.Paths["cam"].RecordSegmentDuration = Duration(25 * time.Hour); c.Paths["cam"].RecordDeleteAfter = 0 },
-		"regexStatic":    func(c *Conf) { c.Paths["~^r(\\d)$"].Source = "rtsp://h/p" },
-		"rpiDuplicate":   func(c *Conf) { c.Paths["cam"].Source = "rpiCamera"; c.Paths["~^r(\\d)$"].Source = "rpiCamera"; c.Paths["~^r(\\d)$"].SourceOnDemand = true },
-		"name":           func(c *Conf) { c.Paths["a/../b"] = c.Paths["cam"]; c.OptionalPaths["a/../b"] = nil },
-		"regexpMissing":  func(c *Conf) { c.Paths["~^r(\\d)$"].Regexp = nil },
-		"aliases":        func(c *Conf) { c.Paths["all"] = c.Paths["~^r(\\d)$"].Clone(); c.Paths["all"].Name = "all"; c.Paths["all_others"] = c.Paths["all"]; c.OptionalPaths["all"] = nil; c.OptionalPaths["all_others"] = nil },
-		"rpiNoPrimary":   func(c *Conf) { c.Paths["cam"].Source = "rpiCamera"; c.Paths["cam"].RPICameraSecondary = true },
+		"readTimeout":  func(c *Conf) { c.ReadTimeout = 0 },
+		"writeTimeout": func(c *Conf) { c.WriteTimeout = -1 },
+		"queue":        func(c *Conf) { c.WriteQueueSize = 1000 },
+		"queue0":       func(c *Conf) { c.WriteQueueSize = 0 },
+		"udp":          func(c *Conf) { c.UDPMaxPayloadSize = 1473 },
+		"path":         func(c *Conf) { c.Paths["cam"].RecordPath = "./rec/%Y-%m-%d_%H-%M-%S-%f" },
+		"timestamp":    func(c *Conf) { c.Paths["cam"].RecordPath = "./rec/%path/%Y-%m-%d_%H-%M-%f" },
+		"micros":       func(c *Conf) { c.Playback = true; c.Paths["cam"].RecordPath = "./rec/%path/%s" },
+		"deleteAfter":  func(c *Conf) { c.Paths["cam"].RecordDeleteAfter = 1 },
+		"segment": func(c *Conf) {
+			c.Paths["cam"].RecordSegmentDuration = Duration(25 * time.Hour)
+			c.Paths["cam"].RecordDeleteAfter = 0
+		},
+		"regexStatic": func(c *Conf) { c.Paths["~^r(\\d)$"].Source = "rtsp://h/p" },
+		"rpiDuplicate": func(c *Conf) {
+			c.Paths["cam"].Source = "rpiCamera"
+			c.Paths["~^r(\\d)$"].Source = "rpiCamera"
+			c.Paths["~^r(\\d)$"].SourceOnDemand = true
+		},
+		"name":          func(c *Conf) { c.Paths["a/../b"] = c.Paths["cam"]; c.OptionalPaths["a/../b"] = nil },
+		"regexpMissing": func(c *Conf) { c.Paths["~^r(\\d)$"].Regexp = nil },
+		"aliases": func(c *Conf) {
+			c.Paths["all"] = c.Paths["~^r(\\d)$"].Clone()
+			c.Paths["all"].Name = "all"
+			c.Paths["all_others"] = c.Paths["all"]
+			c.OptionalPaths["all"] = nil
+			c.OptionalPaths["all_others"] = nil
+		},
+		"rpiNoPrimary": func(c *Conf) { c.Paths["cam"].Source = "rpiCamera"; c.Paths["cam"].RPICameraSecondary = true },
 	}
 	for name, f := range breaks {
 		c := base()
